@@ -5,7 +5,13 @@
    variadic; any subset calling super().step, forwarding arguments or not; raising or clearing `running` at any
    threshold).  wrapped_step h mid st args is what instance.step( *args) does to the instance state st;
    its result is (state afterwards, the log of user bodies run, outcome Ok | ErrType | ErrBoom).
-   The theorems hold for every outcome, including the failing ones. *)
+   The theorems hold for every outcome, including the failing ones.
+   Multiple inheritance: h is the MRO (C3 linearisation) of the instance's class without Model/object - super()
+   continues at the next class of that list whichever base it came from - so every theorem below covers diamonds
+   and mixins as they stand (the harness builds them with type(name, (B1, B2), ...) and checks that CPython's
+   __mro__ is the list the model was given).
+   Recursion: `rec_free h` = no body calls self.step() again.  For hierarchies whose bodies do
+   (l_rec := Some k: `if self.steps < k: self.step()`), C05_recursive_calls_each_count_once is the statement. *)
 From Coq Require Import ZArith List Bool.
 From Mesa Require Import Generated.Tables Model.StepCounter Proofs.StepCounterProofs.
 Import ListNotations.
@@ -13,28 +19,28 @@ Open Scope Z_scope.
 
 (* each call advances steps by exactly one - however step is defined, whatever the arguments, also when the
    call protocol rejects the arguments or user code raises *)
-Theorem C05_exactly_one : forall h mid st args,
+Theorem C05_exactly_one : forall h mid st args, rec_free h = true ->
   steps (res_state (wrapped_step h mid st args)) = steps st + 1.
 Proof. exact wrapped_exactly_one. Qed.
 Print Assumptions C05_exactly_one.
 
 (* ... and does so before any user code runs: every user body run during the call (at any level of the
    hierarchy) sees the already incremented value, and belongs to this instance *)
-Theorem C05_before_user : forall h mid st args,
+Theorem C05_before_user : forall h mid st args, rec_free h = true ->
   Forall (fun e => e_seen e = steps st + 1 /\ e_inst e = mid) (res_events (wrapped_step h mid st args)).
 Proof. exact wrapped_before_user. Qed.
 Print Assumptions C05_before_user.
 
 (* the user bodies run are the super chain from the first definer: all of it, in order, when the call returns
    normally; a prefix of it when a body or the call protocol raises *)
-Theorem C05_user_runs_once_per_definer_chain : forall h mid st args,
+Theorem C05_user_runs_once_per_definer_chain : forall h mid st args, rec_free h = true ->
   exists rest, super_chain h 0 = map e_lvl (res_events (wrapped_step h mid st args)) ++ rest /\
                (res_status (wrapped_step h mid st args) = Ok -> rest = []).
 Proof. exact wrapped_levels. Qed.
 Print Assumptions C05_user_runs_once_per_definer_chain.
 
 (* ... hence no level's body runs twice in one call *)
-Theorem C05_each_body_at_most_once : forall h mid st args,
+Theorem C05_each_body_at_most_once : forall h mid st args, rec_free h = true ->
   NoDup (map e_lvl (res_events (wrapped_step h mid st args))).
 Proof. exact wrapped_each_once. Qed.
 Print Assumptions C05_each_body_at_most_once.
@@ -65,7 +71,7 @@ Print Assumptions C05_not_overridden.
 (* run_model keeps stepping exactly until running becomes false: when it returns, running is false and it made
    n successful calls, each started while running was true; steps advanced by n; with running already false it
    does nothing *)
-Theorem C05_run_model_stops : forall h mid fuel st st' evs,
+Theorem C05_run_model_stops : forall h mid fuel, rec_free h = true -> forall st st' evs,
   run_model fuel h mid st = (st', evs, Ok) ->
   running st' = false /\
   exists n, (n <= fuel)%nat /\ steps_while_running h mid st n st' /\ steps st' = steps st + Z.of_nat n.
@@ -78,7 +84,7 @@ Proof. exact run_model_not_running. Qed.
 Print Assumptions C05_run_model_not_running.
 
 (* a run_model loop ended by an exception: n complete calls plus the raising one, all counted *)
-Theorem C05_run_model_exception : forall h mid fuel st st' evs r,
+Theorem C05_run_model_exception : forall h mid fuel, rec_free h = true -> forall st st' evs r,
   run_model fuel h mid st = (st', evs, r) -> r = ErrType \/ r = ErrBoom ->
   exists n st1 ev, steps_while_running h mid st n st1 /\ running st1 = true /\
                    wrapped_step h mid st1 [] = (st', ev, r) /\ steps st' = steps st + Z.of_nat n + 1.
@@ -86,7 +92,7 @@ Proof. exact run_model_err. Qed.
 Print Assumptions C05_run_model_exception.
 
 (* user code run inside run_model never sees a stale counter *)
-Theorem C05_run_model_before_user : forall h mid fuel st,
+Theorem C05_run_model_before_user : forall h mid fuel, rec_free h = true -> forall st,
   Forall (fun e => steps st < e_seen e <= steps (res_state (run_model fuel h mid st)) /\ e_inst e = mid)
          (res_events (run_model fuel h mid st)).
 Proof. exact run_model_events. Qed.
@@ -109,11 +115,27 @@ Print Assumptions C05_other_instance_untouched.
 
 (* over whole histories: steps = the number of step calls made on the instance (any arguments, any outcome) *)
 Theorem C05_steps_count_calls : forall ops w i x h,
-  class_of w i = Some (x, h) -> forallb (fun o => negb (is_run o)) ops = true ->
+  class_of w i = Some (x, h) -> rec_free h = true -> forallb (fun o => negb (is_run o)) ops = true ->
   exists x', class_of (final w ops) i = Some (x', h) /\
              steps (i_st x') = steps (i_st x) + Z.of_nat (length (filter (is_step_at i) ops)).
 Proof. exact steps_count_calls. Qed.
 Print Assumptions C05_steps_count_calls.
+
+(* recursive self.step() inside user code, to any depth, at any level of the hierarchy: the bodies of the
+   resolved (variadic) user step - one per call, outer or nested - saw steps+1, steps+2, ..., up to the final
+   value, in this order.  So every nested call went through the wrapper, was counted exactly once, and was
+   counted before its user code ran; the counter advanced by exactly the number of calls.  (Any outcome other than
+   exhaustion of the model's recursion fuel, exceptions included.) *)
+Theorem C05_recursive_calls_each_count_once : forall h mid i l st args,
+  resolve h 0 = Some (i, l) -> l_arity l < 0 ->
+  res_status (wrapped_step h mid st args) <> OutOfFuel ->
+  tops i (res_events (wrapped_step h mid st args)) =
+    zrange (steps st + 1) (steps (res_state (wrapped_step h mid st args))) /\
+  steps st + 1 <= steps (res_state (wrapped_step h mid st args)) /\
+  steps (res_state (wrapped_step h mid st args)) =
+    steps st + Z.of_nat (length (tops i (res_events (wrapped_step h mid st args)))).
+Proof. exact wrapped_step_counted. Qed.
+Print Assumptions C05_recursive_calls_each_count_once.
 
 (* T1: the shape of the source the model transcribes, re-read from the source on this run:
    __init__ binds _user_step to self.step and then shadows step on the instance; _wrapped_step is
@@ -129,16 +151,16 @@ Print Assumptions C05_source_shape.
    them, level 2 does not define it, level 3 is variadic, calls super() without arguments and clears running
    at 3 *)
 Definition ex_h : hierarchy :=
-  [ {| l_def := false; l_arity := 0; l_super := false; l_fwd := false; l_stop := None; l_raise := None |};
-    {| l_def := true; l_arity := 2; l_super := true; l_fwd := true; l_stop := None; l_raise := None |};
-    {| l_def := false; l_arity := 0; l_super := false; l_fwd := false; l_stop := None; l_raise := None |};
-    {| l_def := true; l_arity := -1; l_super := true; l_fwd := false; l_stop := Some 3; l_raise := None |} ].
+  [ {| l_def := false; l_arity := 0; l_super := false; l_fwd := false; l_stop := None; l_raise := None; l_rec := None |};
+    {| l_def := true; l_arity := 2; l_super := true; l_fwd := true; l_stop := None; l_raise := None; l_rec := None |};
+    {| l_def := false; l_arity := 0; l_super := false; l_fwd := false; l_stop := None; l_raise := None; l_rec := None |};
+    {| l_def := true; l_arity := -1; l_super := true; l_fwd := false; l_stop := Some 3; l_raise := None; l_rec := None |} ].
 Definition ex_loop : hierarchy :=
-  [ {| l_def := true; l_arity := -1; l_super := true; l_fwd := true; l_stop := Some 5; l_raise := None |} ].
+  [ {| l_def := true; l_arity := -1; l_super := true; l_fwd := true; l_stop := Some 5; l_raise := None; l_rec := None |} ].
 
 Example C05_example_call :
   resolve ex_h 0 = Some (1, nth 1 ex_h (nth 0 ex_h (nth 0 ex_h (nth 0 ex_h
-     {| l_def := false; l_arity := 0; l_super := false; l_fwd := false; l_stop := None; l_raise := None |})))) /\
+     {| l_def := false; l_arity := 0; l_super := false; l_fwd := false; l_stop := None; l_raise := None; l_rec := None |})))) /\
   super_chain ex_h 0 = [1; 3] /\
   wrapped_step ex_h 7 {| steps := 2; running := true |} [10; 20] =
     ({| steps := 3; running := false |},
@@ -161,3 +183,18 @@ Example C05_example_interleaving :
   map (fun x => steps (i_st x)) (w_insts (final w ops)) = [3; 2; 1] /\
   forallb (fun o => negb (is_run o)) ops = true.
 Proof. vm_compute. split; reflexivity. Qed.
+
+(* recursion: the top body recurses while steps < 4, and so does the super-called body while steps < 6 *)
+Definition ex_rec : hierarchy :=
+  [ {| l_def := true; l_arity := -1; l_super := true; l_fwd := false; l_stop := None; l_raise := None; l_rec := Some 4 |};
+    {| l_def := true; l_arity := 0; l_super := false; l_fwd := false; l_stop := None; l_raise := None; l_rec := Some 6 |} ].
+
+Example C05_example_recursion :
+  rec_free ex_rec = false /\
+  resolve ex_rec 0 = Some (0, nth 0 ex_rec (nth 1 ex_rec (nth 1 ex_rec (nth 1 ex_rec
+     {| l_def := false; l_arity := 0; l_super := false; l_fwd := false; l_stop := None; l_raise := None; l_rec := None |})))) /\
+  res_status (wrapped_step ex_rec 0 {| steps := 1; running := true |} [9]) = Ok /\
+  steps (res_state (wrapped_step ex_rec 0 {| steps := 1; running := true |} [9])) = 6 /\
+  tops 0 (res_events (wrapped_step ex_rec 0 {| steps := 1; running := true |} [9])) = [2; 3; 4; 5; 6] /\
+  tops 1 (res_events (wrapped_step ex_rec 0 {| steps := 1; running := true |} [9])) = [4; 5; 6; 6; 6].
+Proof. vm_compute. repeat split; reflexivity. Qed.
